@@ -335,7 +335,7 @@ def config_case(case, rec):
         return
     rec.count("configurations")
 
-    def read_all(d, view, exp=None):
+    def read_all(d, view, exp=None, colon=True):
         dn, lb = doc_naming(d)
         events = nsan.local("ref_events")
         for si, ti, host in (expect if exp is None else exp):
@@ -352,7 +352,7 @@ def config_case(case, rec):
                     if not events:
                         rec.violation("formula_read_raised", {"exc": type(e).__name__, "view": view}, {"host": list(host), "msg": str(e)[:200]}, case=c2)
                         continue
-            ce = colon_expect.get((si, ti, host))
+            ce = colon_expect.get((si, ti, host)) if colon else None
             if ce is not None and ftext is not None:
                 # a COLON_NODE range: the joined text must name the stored rectangle in the stored table
                 rec.count("colon_node_ranges")
@@ -402,6 +402,28 @@ def config_case(case, rec):
     # the host moves: a row is inserted above, or the first row removed, after the references were printed once. The stored
     # offsets are what they were, so a relative reference is resolved from where the host is now (kept: references into the
     # host's own table whose rows stay inside it)
+    try:
+        # first the other way: the first row is removed (hosts move up), the references are read, and an empty row is put back
+        si_, ti_, t_ = tabs[rng.randrange(len(tabs))]
+        up = []
+        for (si, ti, host) in expect:
+            if (si, ti) != (si_, ti_) or (si, ti, host) in colon_expect or (si, ti, host) not in rows_of:
+                continue
+            own, rws, mixed = rows_of[(si, ti, host)]
+            if own and not mixed and host[0] >= 1 and all(1 <= r <= R - 2 for r in rws):
+                up.append((si, ti, (host[0] - 1, host[1])))
+        if up and t_.num_header_rows == 0 and t_.num_rows == R:
+            with warnings.catch_warnings():
+                warnings.simplefilter("ignore")
+                t_.delete_row(start_row=0)
+            rec.count("references_read_after_their_host_moved", len(up))
+            rec.count("references_read_after_their_host_moved_up", len(up))
+            read_all(doc, "open-after-host-moved-up", up, colon=False)
+            with warnings.catch_warnings():
+                warnings.simplefilter("ignore")
+                t_.add_row(start_row=0)
+    except Exception as e:  # noqa: BLE001 - V9
+        rec.build_failure(f"row shift up: {type(e).__name__}: {str(e)[:80]}")
     try:
         si_, ti_, t_ = tabs[rng.randrange(len(tabs))]
         down = True  # removing the first row would also take referenced rows (and the last absolute row) out of other tables' references: only the insertion is generated
